@@ -219,6 +219,8 @@ fn real_verify(f: &Fixture, params: &Parameters, agg: &Value, msg: &[u8]) -> Str
     }
 }
 
+fn slot_of(agg: &Value) -> u64 { agg["batch_proof"]["indices"][0].as_u64().unwrap_or(0) }
+
 fn s_check(sink: &mut Sink, i: usize, out: &str, params: &Parameters, facts: &Facts, req: &str) {
     if out != "ok" { return; }
     let mut d = facts.idx.clone();
@@ -349,6 +351,55 @@ fn main() {
         mutate("path-index-duplicated", &mut |v| { let l = v["batch_proof"]["indices"].as_array_mut().unwrap(); let x = l[0].clone(); l.insert(0, x); }, &mut cases);
         mutate("path-index-huge", &mut |v| { let l = v["batch_proof"]["indices"].as_array_mut().unwrap(); let n = l.len(); l[n - 1] = json!(u64::MAX); }, &mut cases);
         mutate("signature-removed", &mut |v| { v["signatures"].as_array_mut().unwrap().remove(a); }, &mut cases);
+        // ---- a registered slot listed TWICE in the batch path: the genuine (key, stake) pair with its genuine path,
+        // then the same slot again under a claimed stake (the party's own key, so every signature is valid and every
+        // index is won for the CLAIMED stake). The two entries are never siblings: a batch verifier that does not
+        // insist on ONE node at the top compares only one of them with the root. The aggregate is built from the
+        // party's own one-signature aggregate (a clerk of its own with k = 1: the registration is public).
+        {
+            let own = &honest[rng.below(honest.len() as u64) as usize];
+            let lax = Parameters { k: 1, ..params };
+            let lax_clerk = mithril_stm::Clerk::<D>::new_clerk_from_closed_key_registration(&lax, &f.closed);
+            if let Ok(own_agg) = aggregate(&f, &lax_clerk, std::slice::from_ref(own), &msg) {
+                let base = serde_json::to_value(&own_agg).unwrap();
+                if base["signatures"].as_array().map(|l| l.len()) == Some(1) && base["batch_proof"]["indices"].as_array().map(|l| l.len()) == Some(1) {
+                    let sigma = bytes_of(&base["signatures"][0][0]["sigma"]);
+                    let genuine: Vec<u64> = base["signatures"][0][0]["indexes"].as_array().unwrap().iter().map(|x| x.as_u64().unwrap()).collect();
+                    let st0 = base["signatures"][0][1][1].as_u64().unwrap();
+                    for (tag, claimed, genuine_first) in [("slot-twice-claimed-total", ctx.total, true), ("slot-twice-claimed-stake+1", st0 + 1, true), ("slot-twice-forged-first", ctx.total, false)] {
+                        let mut extra: Vec<u64> = (0..m).filter(|i| !genuine.contains(i) && ctx.won(&params, &sigma, *i, claimed)).collect();
+                        let mut kept = genuine.clone();
+                        if extra.is_empty() && kept.len() >= 2 {
+                            // nothing more to win (phi_f = 1, or the party already holds almost everything): the forged
+                            // entry takes over half of the genuine indices (won for the larger stake a fortiori)
+                            extra = kept.split_off(kept.len() / 2);
+                        }
+                        if extra.is_empty() { continue; }
+                        let mut v = base.clone();
+                        v["signatures"][0][0]["indexes"] = json!(kept);
+                        let mut forged = v["signatures"][0].clone();
+                        forged[0]["indexes"] = json!(extra);
+                        forged[1][1] = json!(claimed);
+                        if genuine_first { v["signatures"].as_array_mut().unwrap().push(forged); } else { v["signatures"].as_array_mut().unwrap().insert(0, forged); }
+                        let slot = v["batch_proof"]["indices"][0].clone();
+                        v["batch_proof"]["indices"] = json!([slot.clone(), slot]);
+                        let vals = v["batch_proof"]["values"].as_array().unwrap().clone();
+                        v["batch_proof"]["values"] = Value::Array(vals.into_iter().flat_map(|x| [x.clone(), x]).collect());
+                        let kk = (kept.len() + extra.len()) as u64;
+                        cases.push((tag, v.clone(), Parameters { k: kk.min(params.k).max(1), ..params }));
+                        if tag == "slot-twice-claimed-total" {
+                            // the same forged entry at an index far outside the tree (it never meets the genuine entry
+                            // on the way up either); the genuine path is left as it is
+                            let mut w = v;
+                            let big = (1u64 << 40) - (ctx.nr_leaves as u64).next_power_of_two();
+                            w["batch_proof"]["indices"] = json!([slot_of(&base), big]);
+                            w["batch_proof"]["values"] = base["batch_proof"]["values"].clone();
+                            cases.push(("slot-outside-tree-claimed-total", w, Parameters { k: kk.min(params.k).max(1), ..params }));
+                        }
+                    }
+                }
+            }
+        }
         // ---- the aggregate check's coefficients ---------------------------------------------------
         if ns >= 2 {
             let sig_bytes: Vec<Vec<u8>> = honest_v["signatures"].as_array().unwrap().iter().map(|s| bytes_of(&s[0]["sigma"])).collect();
